@@ -78,6 +78,8 @@ where
                     self.repeat
                 );
                 if self.repeat.again() {
+                    // A trailing partial sample is not part of the data.
+                    self.buf.clear();
                     self.f.seek(std::io::SeekFrom::Start(0))?;
                     // This is not quite the definition of "pending", but I
                     // wanted to get rid of Noop, and it'll do for now.
